@@ -2,6 +2,7 @@ mod builtins;
 mod gen_alias;
 mod gen_dict;
 mod gen_fault;
+mod gen_flow;
 mod gen_stream;
 mod gen_common;
 mod ir;
